@@ -264,3 +264,27 @@ def rules(ctx: Ctx) -> None:
             ctx.ob("R11.6", f"loop-variable-not-used-after-its-loop:{f.owner}:{use.id}", False, loc(f.mod, use),
                    f"`{use.id}` is read after `for {u(L.target)} in {u(L.iter)[:40]}` (line {L.lineno}) ended without break: it names whichever element came last")
     ctx.ob("R11.6", "loop-variable-not-used-after-its-loop:scanned", True, "sqllineage/", f"{n_loops} loops scanned", trivial=True)
+
+    # ---- R11.7 nothing that can be consumed only once is kept in an attribute -------------------------------------------------------------
+    # (`self.x = zip(..)` / `map(..)` / `filter(..)` / a generator expression / `iter(..)` / `reversed(..)`: the first accessor that walks it empties it,
+    # so the same accessor called twice answers differently.  A value kept on the object must be a container.)
+    one_shot = {"zip", "map", "filter", "iter", "reversed", "enumerate"}
+    n_attr_stores = 0
+    for f in prog.funcs.values():
+        if f.cls is None:
+            continue
+        for k in prog.walk_fn(f):
+            if not isinstance(k, (ast.Assign, ast.AnnAssign)) or k.value is None:
+                continue
+            tg = [t for t in (k.targets if isinstance(k, ast.Assign) else [k.target]) if isinstance(t, ast.Attribute) and isinstance(t.value, ast.Name) and t.value.id in ("self", "cls")]
+            if not tg:
+                continue
+            n_attr_stores += 1
+            for v in [k.value] + list(prog.value_sources(f, k.value)):
+                once = isinstance(v, ast.GeneratorExp) or (isinstance(v, ast.Call) and isinstance(v.func, ast.Name) and v.func.id in one_shot and not prog.local_defs(f, v.func.id)) \
+                    or (isinstance(v, ast.Call) and isinstance(v.func, ast.Attribute) and isinstance(v.func.value, ast.Name) and v.func.value.id == "itertools")
+                if once:
+                    ctx.ob("R11.7", f"no-one-shot-iterator-in-attribute:{f.owner}:{tg[0].attr}", False, loc(f.mod, k),
+                           f"`{u(k)[:80]}` keeps an iterator on the object: it is exhausted by its first reader, a second call of the same accessor sees it empty")
+                    break
+    ctx.floor("attribute stores in methods", n_attr_stores, 20)
